@@ -89,7 +89,33 @@ def k1b_cli_reports(core, rep):
             verdict = n.targets[0].id
             solver_var = attr_text(n.value.func.value)
     if verdict is None:
+        # the verdict combined with something else (`ok = s.solve(...) and ok`)
+        for n in ast.walk(f.node):
+            if isinstance(n, ast.Assign) and isinstance(n.targets[0], ast.Name):
+                inner = [c for c in calls_in(n.value) if call_name(c) == 'solve' and isinstance(c.func, ast.Attribute)]
+                if inner:
+                    verdict = n.targets[0].id
+                    solver_var = attr_text(inner[0].func.value)
+    if verdict is None:
         raise AnalysisError('habutax/__init__.py: solve() does not keep the verdict of Solver.solve in a variable (anchor vanished)')
+    # one solve per Solver: the solved flag is set and never cleared, so a second call on the same object inherits the
+    # first call's success
+    sv = core.method('Solver', 'solve')
+    clears = [n for n in ast.walk(sv.node) if isinstance(n, ast.Assign) and any(self_attr(t) == '_solved' for t in n.targets)
+              and isinstance(n.value, ast.Constant) and n.value.value is False]
+    sites = [c for c in calls_in(f.node) if call_name(c) == 'solve' and isinstance(c.func, ast.Attribute) and attr_text(c.func.value) == solver_var]
+    def _in_loop(c):
+        p_ = getattr(c, 'parent', None)
+        while p_ is not None and p_ is not f.node:
+            if isinstance(p_, (ast.For, ast.While, ast.ListComp, ast.GeneratorExp, ast.SetComp, ast.DictComp)):
+                return True
+            p_ = getattr(p_, 'parent', None)
+        return False
+    looped = [c for c in sites if _in_loop(c)]
+    rep.ob('K1b', 'one-solve-per-solver', bool(clears) or (len(sites) == 1 and not looped),
+           f'the CLI calls {solver_var}.solve() {"in a loop" if looped else str(len(sites)) + " times"} on one Solver object; Solver.solve() only ever sets its solved flag and never clears it, '
+           'so once one call has succeeded every later call returns success whatever it ran into (unimplemented lines, missing inputs)',
+           f'habutax/__init__.py:{(looped or sites or [f.node])[0].lineno}')
     ifs = [n for n in ast.walk(f.node) if isinstance(n, ast.If) and any(isinstance(x, ast.Name) and x.id == verdict for x in ast.walk(n.test))]
     if not rep.ob('K1b', 'branch-on-verdict', len(ifs) >= 1, f'the CLI never branches on the verdict variable {verdict!r}', _w(f)):
         return
@@ -549,15 +575,24 @@ def k10_refusal(core, rep):
     # in solve(): every _attempt_input call is guarded by "not refused", and a cycle back to it re-tests the flag
     sv = s.solve
     g = sv.cfg
-    calls = [n for n in g.nodes if n.kind == 'stmt' and any(call_name(c) == '_attempt_input' for c in calls_in(n.ast))]
+    calls = [n for n in g.nodes if n.kind in ('stmt', 'test') and any(call_name(c) == '_attempt_input' for c in calls_in(n.ast))]
     if not calls:
         raise AnalysisError('solve() does not call _attempt_input (anchor vanished)')
+    k32_solve_single_exit(core, rep)
     tests = {n.id for n in g.nodes if n.kind == 'test' and any(self_attr(x) == s.refused for x in ast.walk(n.ast))}
     for n in calls:
         facts = g.branch_facts(n)
         guarded = (f'self.{s.refused}', False) in facts
         rep.ob('K10', 'ask-only-while-not-refused', guarded, 'solve() may prompt although the user already refused', _w(sv, n.ast))
-        cyc = any(g.paths_avoiding(x, n, tests) for x in n.succ)
+        starts = list(n.succ)
+        if n.kind == 'test':
+            # the answer of the call itself decides the branch: only the "nothing supplied" side has to stop the questions
+            t = n.ast
+            neg = isinstance(t, ast.UnaryOp) and isinstance(t.op, ast.Not) and isinstance(t.operand, ast.Call) and call_name(t.operand) == '_attempt_input'
+            pos = isinstance(t, ast.Call) and call_name(t) == '_attempt_input'
+            if neg or pos:
+                starts = [x for x in n.succ if x.kind == ('T' if neg else 'F')]
+        cyc = any(g.paths_avoiding(x, n, tests) for x in starts)
         rep.ob('K10', 'flag-retested-between-prompts', not cyc, 'solve() can prompt twice in a row without re-testing the refused flag (Ctrl-C would not stop the questions)', _w(sv, n.ast))
     # _attempt_input callers
     for rel, c in core.all_nodes(ast.Call):
@@ -1059,6 +1094,23 @@ def k21_typed_values(core, rep):
     sup = [c for c in calls_in(ff.node) if call_name(c) == 'value' and isinstance(c.func.value, ast.Call) and call_name(c.func.value) == 'super']
     rep.ob('K21b', 'money-rounded-on-the-way-into-the-store', ok and len(sup) == 1,
            'FloatField.value() does not return round(<typed value>, self._places)', _w(ff))
+    # the declared number of places is kept as declared (0 is a legitimate declaration: whole-dollar state lines)
+    fi = core.func('habutax/fields.py', 'FloatField', '__init__')
+    pl = [n for n in ast.walk(fi.node) if isinstance(n, ast.Assign) and any(self_attr(t) == '_places' for t in n.targets)]
+    params = [a.arg for a in fi.node.args.args]
+    def _keeps(e):
+        if isinstance(e, ast.Name) and e.id in params:
+            return True
+        if isinstance(e, ast.IfExp) and isinstance(e.test, ast.Compare) and len(e.test.ops) == 1 and isinstance(e.test.ops[0], (ast.Is, ast.IsNot)) \
+                and isinstance(e.test.left, ast.Name) and e.test.left.id in params and unparse(e.test.comparators[0]) == 'None':
+            kept = e.orelse if isinstance(e.test.ops[0], ast.Is) else e.body
+            return isinstance(kept, ast.Name) and kept.id == e.test.left.id
+        return False
+    rep.ob('K21b', 'declared-places-kept-as-declared', len(pl) == 1 and _keeps(pl[0].value),
+           f'FloatField.__init__ stores `{unparse(pl[0].value) if pl else None}` as the number of places instead of the declared value: a declaration the expression maps elsewhere '
+           '(`places or N` turns the declared 0 of a whole-dollar line into N) is rounded and printed with the wrong precision', f'habutax/fields.py:{(pl[0] if pl else fi.node).lineno}')
+    others = [(rel, n) for rel, n in core.all_nodes(ast.Attribute) if n.attr == '_places' and isinstance(n.ctx, ast.Store) and not (pl and n in pl[0].targets)]
+    rep.ob('K21b', 'places-set-only-by-the-constructor', not others, 'the number of places of a line is rewritten after construction', f'{others[0][0]}:{others[0][1].lineno}' if others else None)
     # K21c nothing bypasses the choke point
     for rel, n in core.all_nodes(ast.Attribute):
         if n.attr == '_value' and isinstance(getattr(n, 'parent', None), ast.Call) and n.parent.func is n:
@@ -1377,6 +1429,62 @@ def k25_list_form_inputs(core, rep):
         chain = ' '.join([it] + [derived[k] for k in seen])
         src_ok = f'{fv}.inputs()' in chain or any(f'{fv}.inputs()' in v for v in derived.values())
     rep.ob('K25', 'lists-every-input-of-the-form', bool(loops) and src_ok, 'the listed options are not derived from the inputs() of the instantiated form', _w(f))
+    # everything printed once the form has been instantiated is template text: the header, a comment, a blank line or the
+    # commented option - a bare line of prose parses back as an option of that name
+    def _const_lines_ok(text, at_line_start):
+        # every line that starts inside this constant text is blank or a comment
+        parts = text.split('\n')
+        for k, part in enumerate(parts):
+            starts_here = at_line_start if k == 0 else True
+            if starts_here and part.strip() and not part.lstrip().startswith('#'):
+                # a constant that ends the piece may be continued by what follows: only its own text is judged
+                return False
+        return True
+    def _starts_with_hash(e, depth=0):
+        if isinstance(e, ast.Constant) and isinstance(e.value, str):
+            return e.value.startswith('#')
+        if isinstance(e, ast.JoinedStr):
+            return bool(e.values) and isinstance(e.values[0], ast.Constant) and str(e.values[0].value).startswith('#')
+        if isinstance(e, ast.BinOp) and isinstance(e.op, ast.Add):
+            return _starts_with_hash(e.left, depth)
+        if isinstance(e, ast.Name) and depth < 3:
+            first = [x for x in ast.walk(f.node) if isinstance(x, ast.Assign) and any(isinstance(t, ast.Name) and t.id == e.id for t in x.targets)]
+            return bool(first) and all(_starts_with_hash(x.value, depth + 1) for x in first)
+        return False
+    def _template_text(e, at_line_start=True):
+        if isinstance(e, ast.Constant) and isinstance(e.value, str):
+            return _const_lines_ok(e.value, at_line_start)
+        if isinstance(e, ast.JoinedStr):
+            start = at_line_start
+            first = True
+            for v in e.values:
+                if isinstance(v, ast.Constant):
+                    txt = str(v.value)
+                    if first and start and txt.startswith('['):
+                        return [str(c.value) for c in e.values if isinstance(c, ast.Constant)] == ['[', ']']      # the section header
+                    if not _const_lines_ok(txt, start):
+                        return False
+                    start = txt.endswith('\n')
+                else:
+                    if start:
+                        return False          # a computed text at the start of a line: not known to be a comment
+                    start = False             # computed pieces are single-line texts (names, descriptions)
+                first = False
+            return True
+        if isinstance(e, ast.BinOp) and isinstance(e.op, ast.Add):
+            if isinstance(e.left, ast.Constant) and isinstance(e.left.value, str) and _const_lines_ok(e.left.value, at_line_start):
+                return _template_text(e.right, e.left.value.endswith('\n') or (at_line_start and e.left.value == ''))
+            return False
+        if isinstance(e, ast.Call) and isinstance(e.func, ast.Attribute) and e.func.attr == 'replace' and len(e.args) == 2 \
+                and all(isinstance(a, ast.Constant) and isinstance(a.value, str) for a in e.args):
+            a, b = e.args[0].value, e.args[1].value
+            return at_line_start and a == '\n' and b.startswith('\n#') and _starts_with_hash(e.func.value)
+        return False
+    after = [c for c in calls_in(f.node) if call_name(c) == 'print' and c.lineno > inst[0].lineno]
+    bad = [c for c in after if not (len(c.args) == 1 and not c.keywords and _template_text(c.args[0])) and not (len(c.args) == 0)]
+    rep.ob('K25', 'only-header-comments-and-options-are-printed', len(after) >= 4 and not bad,
+           f'list-form-inputs prints `{unparse(bad[0], 90) if bad else None}` into the template: a line that is not the section header, a comment or blank '
+           'parses back as an input of that name, so the template no longer names exactly the inputs of the form', f'habutax/__init__.py:{bad[0].lineno}' if bad else _w(f))
     checks = [n for n in ast.walk(f.node) if isinstance(n, ast.If) and 'valid_instances' in unparse(n.test)]
     rep.ob('K25', 'instance-validated', len(checks) >= 2, 'list-form-inputs no longer validates the requested instance against valid_instances', _w(f))
 
@@ -1412,6 +1520,170 @@ def _depth(n):
         n = n.func.value
         d += 1
     return d
+
+
+# ---------------------------------------------------------------- K30 loading a form twice is a normal sequence
+def k30_form_loading_reentrant(core, rep):
+    """_add_form() runs for a form that is already known whenever its inputs were loaded first (a reference to one of its
+    inputs -> _add_input_spec -> _add_form(input_only=True)) and one of its lines is referred to afterwards (-> _add_form()).
+    The statements before the `if input_only: return` exit therefore run at least twice for such a form: an assertion there
+    that a registered NAME is new is false on that sequence and turns a reference that resolves into an internal assertion."""
+    f = core.method('Solver', '_add_form')
+    callers = [(fn, c) for fn in core.funcs if fn.rel == f.rel for c in calls_in(fn.node) if call_name(c) == '_add_form']
+    only = [c for fn, c in callers if any(k.arg == 'input_only' and _const(k.value, True) for k in c.keywords)]
+    full = [c for fn, c in callers if not any(k.arg == 'input_only' for k in c.keywords)]
+    if not only or not full:
+        raise AnalysisError('_add_form() is no longer called both for inputs only and in full (anchor vanished)')
+    # an early exit for a form that is already known makes the second run harmless
+    exit_if = [n for n in f.node.body if isinstance(n, ast.If) and any(isinstance(x, ast.Return) for x in n.body)]
+    early = [n for n in exit_if if 'input_only' not in unparse(n.test) and ('self.forms' in unparse(n.test) or '_input_map' in unparse(n.test))]
+    split = next((n for n in exit_if if 'input_only' in unparse(n.test)), None)
+    if split is None:
+        raise AnalysisError('_add_form(): the `if input_only: return` exit was not found (anchor vanished)')
+    n = 0
+    for st in ast.walk(f.node):
+        if not (isinstance(st, ast.Assert) and st.lineno < split.lineno):
+            continue
+        t = st.test
+        if not (isinstance(t, ast.Compare) and len(t.ops) == 1 and isinstance(t.ops[0], ast.NotIn) and self_attr(t.comparators[0]) is not None):
+            continue
+        table = self_attr(t.comparators[0])
+        keys = {unparse(x.targets[0].slice) for x in ast.walk(f.node) if isinstance(x, ast.Assign) and isinstance(x.targets[0], ast.Subscript)
+                and self_attr(x.targets[0].value) == table}
+        n += 1
+        real = unparse(t.left) in keys
+        rep.ob('K30', f'reload-tolerated/{table}@{unparse(t.left, 30)}', not real or bool(early),
+               f'_add_form() asserts `{unparse(t)}` before the input-only exit, and {table} is keyed by exactly that expression: the form\'s inputs are registered once when an input of it is '
+               'referred to and again when one of its lines is, so the assertion fails on a sequence every multi-form return goes through (the solve dies with an AssertionError)',
+               f'{f.rel}:{st.lineno}')
+    rep.ob('K30', 'input-registration-runs-for-both-kinds-of-load', True)
+    return n
+
+
+# ---------------------------------------------------------------- K31 every while loop of the core has a recognised reason to end
+def _paths_all_hit(stmts, pred):
+    """every path through the statement list executes a statement satisfying pred (or leaves the loop/function)"""
+    for st in stmts:
+        if isinstance(st, (ast.Return, ast.Raise, ast.Break)):
+            return True
+        if isinstance(st, ast.Continue):
+            return False
+        if isinstance(st, ast.If):
+            if _paths_all_hit(st.body, pred) and st.orelse and _paths_all_hit(st.orelse, pred):
+                return True
+            continue
+        if isinstance(st, (ast.For, ast.While, ast.Try, ast.With)):
+            if isinstance(st, ast.With) and _paths_all_hit(st.body, pred):
+                return True
+            continue
+        if any(pred(x) for x in ast.walk(st)):
+            return True
+    return False
+
+
+def k31_loops_end(core, rep):
+    """Inventory of the `while` loops of the core modules.  Each must be one of
+      scheduler   - a loop of Solver.solve() that attempts lines (its termination is the global work-list argument, not decided here);
+      drain       - every path through the body removes an element from a list and nothing in the body adds one;
+      interactive - the tested variable is re-read from input() in every round (ends when the user answers or input ends, K20);
+    A loop that walks along a mapping (x = table[x]) and does not test the nodes it has visited is reported: the tables of
+    the solver can hold cycles (cyclic line definitions are part of the property), and a walk that enters a cycle it did not
+    start on never returns.  Any other loop is undecided (analysis error), never silently accepted."""
+    n = 0
+    kinds = {}
+    for rel, w in core.all_nodes(ast.While):
+        fn = enclosing_function(w)
+        cls = enclosing_class(w)
+        where = f'{rel}:{w.lineno}'
+        name = f'{rel}:{(cls.name + ".") if cls is not None else ""}{fn.name if fn is not None else "<module>"}:while {unparse(w.test, 50)}'
+        n += 1
+        body_calls = [call_name(c) for st in w.body for c in calls_in(st)]
+        # scheduler
+        if fn is not None and fn.name == 'solve' and cls is not None and cls.name == core.solver.cls.name and \
+                ('_attempt_field' in body_calls or any(isinstance(x, ast.While) and '_attempt_field' in [call_name(c) for c in calls_in(x)] for x in ast.walk(w))):
+            kinds[name] = 'scheduler'
+            rep.ob('K31', name, True, where=where)
+            continue
+        # interactive
+        tested = {x.id for x in ast.walk(w.test) if isinstance(x, ast.Name)}
+        reread = [st for st in w.body if isinstance(st, ast.Assign) and any(isinstance(t, ast.Name) and t.id in tested for t in st.targets)
+                  and any(call_name(c) == 'input' for c in calls_in(st.value))]
+        top_try = [st for st in w.body if isinstance(st, ast.Try)]
+        reread += [st for t in top_try for st in t.body if isinstance(st, ast.Assign) and any(isinstance(x, ast.Name) and x.id in tested for x in st.targets)
+                   and any(call_name(c) == 'input' for c in calls_in(st.value))]
+        if reread:
+            kinds[name] = 'interactive'
+            rep.ob('K31', name, True, where=where)
+            continue
+        # drain
+        removes = lambda x: (isinstance(x, ast.Call) and isinstance(x.func, ast.Attribute) and x.func.attr in ('pop', 'popleft', 'remove', 'popitem')) or isinstance(x, ast.Delete)
+        adds = [c for st in w.body for c in calls_in(st) if isinstance(c.func, ast.Attribute) and c.func.attr in ('append', 'extend', 'insert', 'add', 'update', 'setdefault')]
+        sub_stores = [x for st in w.body for x in ast.walk(st) if isinstance(x, ast.Subscript) and isinstance(x.ctx, ast.Store)]
+        if _paths_all_hit(w.body, removes) and not adds and not sub_stores:
+            kinds[name] = 'drain'
+            rep.ob('K31', name, True, where=where)
+            continue
+        # a walk along a mapping
+        walked = []
+        for st in ast.walk(w):
+            if isinstance(st, ast.Assign) and len(st.targets) == 1 and isinstance(st.targets[0], ast.Name) and st.targets[0].id in tested \
+                    and isinstance(st.value, ast.Subscript) and any(isinstance(x, ast.Name) and x.id == st.targets[0].id for x in ast.walk(st.value.slice)):
+                walked.append((st.targets[0].id, unparse(st.value.value)))
+        if walked:
+            var, table = walked[0]
+            # `var not in seen` in the test, with seen growing in the body
+            remembered = False
+            for x in ast.walk(w.test):
+                if isinstance(x, ast.Compare) and len(x.ops) == 1 and isinstance(x.ops[0], ast.NotIn) and isinstance(x.left, ast.Name) and x.left.id == var:
+                    seen_txt = unparse(x.comparators[0])
+                    if any(isinstance(c.func, ast.Attribute) and c.func.attr in ('add', 'append') and unparse(c.func.value) == seen_txt for st in w.body for c in calls_in(st)):
+                        remembered = True
+            kinds[name] = 'walk'
+            rep.ob('K31', name, remembered,
+                   f'the loop `while {unparse(w.test)}` follows `{var} = {table}[{var}]` without testing the nodes it has already visited: when the chain leads into a cycle that does not '
+                   f'contain its starting point (a line waiting on a line of a circular definition: 1 -> 2 -> 3 -> 2) it never ends, so the solve does not terminate', where)
+            continue
+        raise AnalysisError(f'{where}: `while {unparse(w.test, 60)}` in {fn.name if fn else "<module>"}() is none of the loop kinds whose termination is argued (scheduler, drain, interactive, remembered walk); termination not decided')
+    rep.ob('K31', 'while-loops-of-the-core-inventoried', n >= 4, f'only {n} while loops found in the core modules (anchor vanished)')
+    return kinds
+
+
+# ---------------------------------------------------------------- K32 solve() is left only through its loop condition
+def k32_solve_single_exit(core, rep):
+    """The scheduling loop of Solver.solve() ends when nothing is queued, nothing met is undrained and nothing more can be
+    asked.  A return (or break of the outer loop) from inside it leaves answered inputs marked met but their waiting lines
+    unattempted: values that were supplied never reach their lines and are reported as needed-but-missing, and the final
+    assertions and the verdict computation are skipped."""
+    sv = core.solver.solve
+    loops = [n for n in sv.node.body if isinstance(n, ast.While)]
+    if len(loops) != 1:
+        raise AnalysisError(f'Solver.solve() has {len(loops)} top-level while loops (anchor vanished)')
+    outer = loops[0]
+    rets = [x for x in ast.walk(outer) if isinstance(x, (ast.Return, ast.Yield))]
+    def _breaks_outer(n, depth=0):
+        out = []
+        for ch in ast.iter_child_nodes(n):
+            if isinstance(ch, (ast.For, ast.While)):
+                continue            # a break in there leaves the inner loop only
+            if isinstance(ch, ast.Break):
+                out.append(ch)
+            elif not isinstance(ch, (ast.FunctionDef, ast.Lambda)):
+                out.extend(_breaks_outer(ch))
+        return out
+    brk = []
+    for st in outer.body:
+        if isinstance(st, ast.Break):
+            brk.append(st)
+        elif not isinstance(st, (ast.For, ast.While)):
+            brk.extend(_breaks_outer(st))
+    bad = rets + brk
+    rep.ob('K32', 'solve-leaves-its-loop-only-through-the-condition', not bad,
+           f'Solver.solve() leaves its scheduling loop with `{unparse(bad[0], 40) if bad else ""}`: dependencies already marked met are not drained, so lines whose inputs were '
+           'supplied are never attempted (the inputs are then reported as needed but missing) and the end-of-solve assertions and verdict are skipped',
+           f'{sv.rel}:{bad[0].lineno}' if bad else _w(sv))
+    rets_all = [x for x in ast.walk(sv.node) if isinstance(x, ast.Return)]
+    rep.ob('K32', 'one-return-at-the-end', len(rets_all) == 1 and sv.node.body[-1] is rets_all[0],
+           f'Solver.solve() has {len(rets_all)} return statements; the only one should be the last statement, after the verdict has been computed', _w(sv))
 
 
 # ---------------------------------------------------------------- K24 dependency tracker shape
@@ -1481,7 +1753,7 @@ def k24_tracker_shape(core, rep, parts=('a', 'b', 'c', 'd')):
     if 'd' in parts:
         sv = s.solve
         g = sv.cfg
-        calls = [n for n in g.nodes if n.kind == 'stmt' and n.ast is not None and any(call_name(c) == '_attempt_input' for c in calls_in(n.ast))]
+        calls = [n for n in g.nodes if n.kind in ('stmt', 'test') and n.ast is not None and any(call_name(c) == '_attempt_input' for c in calls_in(n.ast))]
         heads = [n for n in g.nodes if n.kind == 'test' and n.label == 'loop' and any(self_attr(x) == s.queue for x in ast.walk(n.ast))
                  and any(call_name(c) == 'has_met' for c in calls_in(n.ast))]
         drains = [n for n in g.nodes if n.kind == 'iter' and any(call_name(c) == 'met_dependents' and self_attr(c.func.value) == s.input_tracker for c in calls_in(n.ast))]
